@@ -1,2 +1,4 @@
 import ReqVerif.Model.Merge
 import ReqVerif.Props.C17
+import ReqVerif.Model.Select
+import ReqVerif.Props.C03
